@@ -2732,7 +2732,10 @@ def run(res, tier, seed, proof):
         "runtime limits (Go stack size, heap, scheduler, GC) are outside every model: nesting is kept to %s levels, grouping "
         "towers to 2^9 copies; the one listed input beyond that (D13) is run in the thorough tier only"
         % ("3000" if tier == "quick" else "20000"),
-        "legacy AST lookups FindNode / ChildNode / PrintNode and JSON marshalling of entries are not exercised",
+        "the AST lookups yang.ChildNode / yang.FindNode are part of every read (every node of every loaded module and "
+        "submodule, names of the set, an unknown name, relative / absolute / prefixed paths; at most 800 calls per read, "
+        "larger sets are sampled with every uses statement and every module kept); PrintNode and JSON marshalling of "
+        "entries are not exercised",
         "identity resolution over incomplete module sets (generator identity-families: several identities of one name in "
         "modules, in submodules of loaded modules and in submodules whose belongs-to module is not loaded, meeting in one "
         "derived-identities list) is checked by the implementation-side oracle only - Process and the reads must return, "
